@@ -20,6 +20,9 @@ class Rec:
     def __init__(self, name): self.name = name; self.open = None; self.close = None; self.attrs = []; self.kids = []; self.selfc = False
 
 
+HOSTILE_HTML = ['<div><!-- never closed <p>', '<a href="x><b>', '<script>if (a<b) {', '<ul><li><![CDATA[ x', '<?php echo "', "<p title='><em>", '</div></div>', '<style>a{']
+
+
 def gen_doc(rnd, xml, budget=14):
     """returns (source, [top-level Rec...]); every Rec knows where its tags and attributes are"""
     buf = []
@@ -33,7 +36,7 @@ def gen_doc(rnd, xml, budget=14):
         if k < .35: emit(rnd.choice(['text', ' ', 'a b', 'x > y', '\n  ', 'é', '1 &lt; 2']))
         elif k < .5: emit('<!-- ' + rnd.choice(['c', '<div>', '</p>', 'a -- b', '<b x="1">']) + ' -->')
         elif k < .58: emit('<![CDATA[' + rnd.choice(['d', '<i>', ']] >', '</div>']) + ']]>')
-        elif k < .64: emit('<?' + rnd.choice(['php echo "<p>"; ', 'xml version="1.0"', 'x']) + '?>')
+        elif k < .64: emit('<?' + rnd.choice(['php echo "<p>"; ', 'xml version="1.0"', 'x', 'php echo "?><span class=x>"; ', "php $a = '?></div>'; ", 'php echo "a\\"?><b>"; ']) + '?>')
 
     def attrs(rec):
         n = rnd.choice([0, 0, 1, 1, 2, 3])
@@ -271,6 +274,11 @@ def run(case, prop):
         from emmet.action_utils import select_item_html
         select_item_html('<feed><entry id="1"><title>t</title></entry></feed>', 0, False, {'xml': True})
     except Exception: pass
+    # ... and the matcher itself was used on half-typed documents before (unclosed comment / string / special element): nothing of that
+    # may be remembered
+    for junk_src in HOSTILE_HTML:
+        try: match(junk_src, len(junk_src) // 2); balanced_outward(junk_src, 3); balanced_inward(junk_src, 1)
+        except Exception: pass
     try:
         scan(s, lambda n, t, a, e: (ev.append('%s:%d:%d:%d' % (n, t, a, e)), evl.append((n, int(t), a, e)))[0], default_special)
     except RecursionError: raise
